@@ -79,6 +79,7 @@ static volatile int tsan_reports_in_case;
 static const uint64_t DIMS_Q[] = {4, 16, 64, 2048, 8, 256, 8192, 32, 16384, 1024, 2, 4096};
 static const uint64_t DIMS_T[] = {4, 16, 64, 2048, 8, 256, 8192, 32, 16384, 1024, 2, 4096, 128, 65536, 512, 32768};
 
+static uint64_t force_dims[2];  // when non-zero: the two dimensions of the next conc_case
 static void conc_case(int warm, unsigned dimsel, int T, int rounds, unsigned rep) {
   char key[96];
   const int sched = (int)(rep % 3);
@@ -88,7 +89,7 @@ static void conc_case(int warm, unsigned dimsel, int T, int rounds, unsigned rep
   snprintf(key, sizeof key, "concurrent:%s|T=%d,%s%s", warm ? "simple-API(warmed-up)" : "module+table-API(cold)", T, sn[sched], cfg == DISP_GENERIC ? ",generic-dispatch" : "");
   const uint64_t* DIMS = G.thorough ? DIMS_T : DIMS_Q;
   const size_t nd = G.thorough ? ARRAY_LEN(DIMS_T) : ARRAY_LEN(DIMS_Q);
-  const uint64_t N1 = DIMS[dimsel % nd], N2 = DIMS[(dimsel + 1 + rep) % nd];
+  const uint64_t N1 = force_dims[0] ? force_dims[0] : DIMS[dimsel % nd], N2 = force_dims[0] ? force_dims[1] : DIMS[(dimsel + 1 + rep) % nd];
   if (!case_begin(key, "dims=%" PRIu64 ",%" PRIu64 " threads=%d rounds=%d rep=%u", N1, N2, T, rounds, rep)) return;
   rng_t* r = crng();
   tsan_reports_in_case = 0;
@@ -169,6 +170,16 @@ static void conc_case(int warm, unsigned dimsel, int T, int rounds, unsigned rep
       if (s.skipped) continue;
       if (s.out_hash != c->hash && nbad++ < 3) viol("differential", "%s: result under %d concurrent threads differs from the same call run alone (N=%" PRIu64 ", thread %d call %d)", OPS[c->op].name, T, envs[c->envi]->N, t, i);
       if (c->bad && nbad++ < 3) viol(c->bad & 1 ? "canary" : "snapshot", "%s under concurrency: %s", OPS[c->op].name, c->msg);
+      // a *_simple function must also be the function its explicit-table twin computes (same arguments from the same seed)
+      if (warm && OPS[c->op].twin) {
+        const opdef_t* tw = op_lookup(OPS[c->op].twin);
+        opres_t w;
+        if (tw) {
+          op_exec(tw, envs[c->envi], c->seed, c->prefill, c->mis, 0, &w);
+          if (!w.skipped && w.out_hash != c->hash && nbad++ < 3) viol("differential", "%s under %d concurrent threads (after the warm-up) differs from %s on the same arguments (N=%" PRIu64 ")", OPS[c->op].name, T, OPS[c->op].twin, envs[c->envi]->N);
+          cnt("simple_vs_table_twin_checks", 1);
+        }
+      }
     }
   // observed concurrency: overlapping [call,return] intervals between different threads
   uint64_t overlaps = 0;
@@ -273,6 +284,86 @@ static void construction_case(int T, unsigned rep) {
   case_end(1);
 }
 
+// the library's own allocation entry points (new_vec_znx_dft / _big, new_svp_ppol, new_vmp_pmat, spqlios_alloc) called by
+// several threads at once on one shared module, with objects of different sizes in flight: every object must be
+// entirely the caller's - each thread fills its objects with its own pattern, lets the others run, and reads them back
+typedef struct {
+  const MODULE* mod;
+  uint64_t N, seed;
+  int iters;
+  uint64_t wrong, objects;
+  pthread_barrier_t* bar;
+} calloc_t;
+static void* calloc_worker(void* arg) {
+  calloc_t* c = arg;
+  rng_t r;
+  rng_seed(&r, c->seed, 555);
+  pthread_barrier_wait(c->bar);
+  for (int it = 0; it < c->iters; it++) {
+    void* obj[3];
+    size_t len[3];
+    int kind[3];
+    for (int j = 0; j < 3; j++) {
+      kind[j] = (int)(rng_u64(&r) % 5);
+      const uint64_t limbs = (rng_u64(&r) & 1) ? 1 + rng_u64(&r) % 5 : 30 + rng_u64(&r) % 12;
+      switch (kind[j]) {
+        case 0: obj[j] = new_vec_znx_dft(c->mod, limbs); len[j] = bytes_of_vec_znx_dft(c->mod, limbs); break;
+        case 1: obj[j] = new_vec_znx_big(c->mod, limbs); len[j] = bytes_of_vec_znx_big(c->mod, limbs); break;
+        case 2: obj[j] = new_svp_ppol(c->mod); len[j] = bytes_of_svp_ppol(c->mod); break;
+        case 3: { const uint64_t nr = 1 + limbs % 7, nc = 1 + limbs % 5; obj[j] = new_vmp_pmat(c->mod, nr, nc); len[j] = bytes_of_vmp_pmat(c->mod, nr, nc); break; }
+        default: len[j] = (size_t)(limbs * c->N * 8); obj[j] = spqlios_alloc(len[j]); break;
+      }
+      memset(obj[j], (int)(0x40 + ((c->seed + (uint64_t)j) & 0x3F)), len[j]);
+    }
+    sched_yield();
+    for (int j = 0; j < 3; j++) {
+      const uint8_t want = (uint8_t)(0x40 + ((c->seed + (uint64_t)j) & 0x3F));
+      const uint8_t* p = obj[j];
+      for (size_t i = 0; i < len[j]; i += 509)
+        if (p[i] != want) { c->wrong++; break; }
+      if (len[j] && p[len[j] - 1] != want) c->wrong++;
+      switch (kind[j]) {
+        case 0: delete_vec_znx_dft(obj[j]); break;
+        case 1: delete_vec_znx_big(obj[j]); break;
+        case 2: delete_svp_ppol(obj[j]); break;
+        case 3: delete_vmp_pmat(obj[j]); break;
+        default: spqlios_free(obj[j]); break;
+      }
+      c->objects++;
+    }
+  }
+  return 0;
+}
+static void allocation_case(uint64_t N, int T, unsigned rep) {
+  char key[96];
+  snprintf(key, sizeof key, "concurrent:library allocators|T=%d", T);
+  if (!case_begin(key, "N=%" PRIu64 " rep=%u", N, rep)) return;
+  rng_t* r = crng();
+  tsan_reports_in_case = 0;
+  MODULE* mod = new_module_info(N, FFT64);
+  calloc_t c[MAXT];
+  pthread_t tid[MAXT];
+  pthread_barrier_t bar;
+  pthread_barrier_init(&bar, 0, (unsigned)T);
+  for (int t = 0; t < T; t++) {
+    c[t] = (calloc_t){mod, N, rng_u64(r), N <= 1024 ? 300 : 60, 0, 0, &bar};
+    pthread_create(&tid[t], 0, calloc_worker, &c[t]);
+  }
+  uint64_t objects = 0, wrong = 0;
+  for (int t = 0; t < T; t++) {
+    pthread_join(tid[t], 0);
+    objects += c[t].objects;
+    wrong += c[t].wrong;
+  }
+  pthread_barrier_destroy(&bar);
+  delete_module_info(mod);
+  if (wrong) viol("differential", "objects obtained from the library's allocation functions by %d threads at once were overwritten by another thread's data (%" PRIu64 " of %" PRIu64 " objects, N=%" PRIu64 ")", T, wrong, objects, N);
+  if (tsan_reports_in_case) viol("tsan", "ThreadSanitizer produced %d report(s) during concurrent allocation", tsan_reports_in_case);
+  cnt("concurrently_allocated_objects", objects);
+  sample("%d threads allocated, filled, verified and released %" PRIu64 " objects of mixed sizes", T, objects);
+  case_end(1);
+}
+
 // first use: T threads make their first calls on a fresh set of shared objects at the same moment, all of them
 // starting with the same heavy entry points (anything built lazily on first use must be race free and complete)
 static void first_use_case(uint64_t N, int T, int cfg, unsigned rep) {
@@ -346,6 +437,12 @@ void run_C12(void) {
     for (size_t ti = 0; ti < ARRAY_LEN(TS); ti++) conc_case(0, rep + (unsigned)ti, TS[ti], 1 + (int)(rep & 1), rep);
   for (unsigned rep = 0; rep < n; rep++)
     for (size_t ti = 0; ti < ARRAY_LEN(TS); ti++) conc_case(1, rep + (unsigned)ti, TS[ti], 3, rep);
+  for (unsigned rep = 0; rep < (th ? 24u : 4u); rep++) allocation_case(rep & 1 ? 4096 : 256, rep & 2 ? 8 : 4, rep);
+  // the warmed-up simple API at the largest and the smallest dimension together
+  force_dims[0] = 65536;
+  force_dims[1] = 2;
+  for (unsigned rep = 0; rep < (th ? 6u : 1u); rep++) conc_case(1, 0, rep & 1 ? 4 : 2, 2, 1000 + rep);
+  force_dims[0] = force_dims[1] = 0;
   for (unsigned rep = 0; rep < (th ? 60u : 6u); rep++) construction_case(rep & 1 ? 16 : 4, rep);
   for (unsigned rep = 0; rep < (th ? 26u : 2u); rep++)
     for (size_t ni = 0; ni < N_ALL_N; ni++) first_use_case(ALL_N[ni], rep & 1 ? 8 : 4, (rep % 3) == 2 || (!th && rep == 1 && (ni & 1)) ? DISP_GENERIC : DISP_NATIVE, rep);
